@@ -12,6 +12,8 @@ for d in seeded/*/; do
   else
     ids=$(python3 -c "import json;print(' '.join(json.load(open('$d/meta.json'))['detected_by'].keys()))")
   fi
+  # ONLY="C04 C13": skip seeds whose selected checks are all outside that list (partial regression after a module changed)
+  if [ -n "${ONLY:-}" ]; then keep=""; for i in $ids; do [[ " $ONLY " == *" $i "* ]] && keep=1; done; [ -z "$keep" ] && continue; fi
   res=$(tools/seedcheck.sh /verif/${d}patch.diff $ids 2>&1 | grep "^==" | awk '{print $2"="$3}' | tr '\n' ' ')
   if [ -z "$res" ]; then echo "ERROR   $n :: seedcheck produced no result (patch does not apply?)"; bad=$((bad+1)); continue; fi
   if echo "$res" | grep -q "exit=0\|exit=2" ; then echo "MISSED  $n :: $res"; bad=$((bad+1)); else echo "caught  $n :: $res"; ok=$((ok+1)); fi
